@@ -243,7 +243,8 @@ Definition check_k1 (ts : list N) : list N :=
             | RAbsent | RErr => v_bad
             | RPanic => v_viol P_ENCPANIC
             | RVal e =>
-              let small := lenN e <=? 65535 in
+              (* the property speaks about messages of up to 65535 octets: serialise() truncates beyond 65536 *)
+              let small := match full_length mi with Some l => l <=? 65535 | None => lenN e <=? 65535 end in
               if small && match d2 with RPanic => true | _ => false end then v_viol P_DECPANIC
               else if small && negb (dec_is d2 mi) then v_viol P_REDECODE
               else if small && negb (match strict_decode e with Some m' => pkt_eqb m' mi | None => false end)
@@ -547,7 +548,8 @@ Definition check_k9 (ts : list N) : list N :=
     match t_res t_pkt ts with
     | Some (RVal r, _) =>
       if negb (ttl_aged dec (answer r) (answer m) && ttl_aged dec (nameserver r) (nameserver m)
-               && ttl_aged dec (additional r) (additional m)) then v_viol P_TTL
+               && ttl_aged dec (additional r) (additional m))
+      then (if min_ttl m <? dec then v_known 1 else v_viol P_TTL)   (* known class 1: decrement beyond the smallest TTL *)
       else match age_ttls dec m with
            | Ok r' => if pkt_eqb r r' then v_ok 90 else v_diff [0]
            | o => v_diff [1]
